@@ -317,7 +317,8 @@ class Scenario:
         if not self.conn:
             return None
         (t, ns), sid = self.rng.choice(list(self.conn.items()))
-        room = self.rng.choice(ROOMS + self.sids(ns))
+        # rooms named like session ids, unless the profile's probe searches the object graph for session-id strings
+        room = self.rng.choice(ROOMS + ([] if self.profile.get('no_sid_rooms') else self.sids(ns)))
         return {'op': 'enter', 'sid': sid, 'ns': ns, 'room': room}
 
     def g_leave(self):
